@@ -2,22 +2,28 @@
 import random
 from ..core import Family
 from .. import plevel
+from .. import fmodel as fm
 
 PROPERTY_FILES = ["C15", "C03_Stack"]
 TRUSTED_BASE = [
     "Coq 8.16.1 kernel (coqc full .vo build)",
-    "hand-written model coq/Model/Limits.v of Engine::next's limit check, get_memory_usage_mb and the error mapping of Model::solve/minimize/enumerate_with_stats (search/mod.rs:430-672, model/core.rs) on top of the search model of C03 — modelled, not verified; tied by this run's differential under hook H4 (check-interval override + scripted clock), including the exact number of limit checks performed",
+    "hand-written model coq/Model/Limits.v of the engine's periodic limit test (Engine::limit_reached: at the first next(), after a yield, after a pop and — repair limits_deep — on every descent into a stalled child), get_memory_usage_mb and the error mapping of Model::solve/minimize/enumerate_with_stats (search/mod.rs, model/core.rs) on top of the search model of C03 — modelled, not verified; tied by this run's differential under hook H4 (check-interval override + scripted clock), including the exact number of limit checks performed",
     "models are built through the public Model API (int/intset + lin_eq/lin_le/lin_ne) so the tie also covers their lowering; root LP step and fast path off (hook H5)",
     "extraction: ExtrOcamlBasic only, no Extract Constant; OCaml driver ocaml/limits_cmd.ml; Rust harness harness/src/limits.rs",
 ]
 ASSUMPTIONS = [
     "PARTIAL: the real clock (Instant::elapsed) is replaced by an oracle on the index of the limit check; that elapsed() is monotone is assumed; the allocator is not modelled (the memory limit is selen's own estimate, which is modelled exactly)",
     "the consumer stops at the first None of the iterator (as solve/minimize/enumerate_with_stats do)",
+    "the wall-clock deadline inside search::propagate_until (the clock is read at the first propagator run of every propagation and then every 1024 runs; a propagation that starts after, or is still running when, the time limit has passed is given up and reported as a failed space, the engine then returns None, the root answers Search::TimedOut) is modelled as an ORACLE `giveup` that may turn any propagation into 'given up at the deadline' (coq/Model/Limits.v; theorems solve_lim_correct_g, minimize_lim_correct_g, enumerate_lim_genuine_g, root_giveup_is_timeout hold for every such oracle). It reads Instant::now() directly and is deliberately SEPARATE from hook H4's scripted clock (the script counts only the engine's periodic tests, so `checks=N` stays a function of the search tree); in the scripted families no time limit is configured, so this code is inert there and the model is run with `nogiveup`. That the code takes the exits the oracle describes (and answers at all) is covered by the differential family creeping_propagation only (real 300-400 ms limits on models whose propagation or descent does not end: the answer must arrive, and be Timeout or correct); the give-up of the fallback root after an LP vertex phase is not modelled (LP block off in the model)",
 ]
 RULE = ("case = small linear model + entry (solve/min/max/enumstats/enum) + check interval 1..7 + clock expiring at check k (k=1..14 or never) "
         "+ memory limit (none / 1 MB with deep stacks) + build-time memory overflow; output (verdict class, assignment, number of "
         "limit checks) compared exactly with the extracted model and judged against the brute-force solution set: Ok => correct "
-        "(optimal for min/max), nosol => really unsatisfiable, sols => genuine and distinct, never a panic; non-trivial = a limit fired")
+        "(optimal for min/max), nosol => really unsatisfiable, sols => genuine and distinct, never a panic; non-trivial = a limit fired; "
+        "family creeping_propagation (sub-command solvef, real clock): float models whose propagation creeps (one step of 1e-10 per round over "
+        "[0,1000]: x<y & y<x, cycles, opposite difference rows, a creeping branch below a 0/1 choice, geometric convergence) or whose bisection "
+        "cannot make progress (magnitude above 2^52 steps), time limit 300-400 ms: the answer must arrive within limit + 8 s (else HANG) "
+        "and be err Timeout, or Ok with a point that satisfies every row (exact rationals, vlib/fmodel.py), or NoSolution where no robust witness exists")
 
 def witness_holds(case):
     parts = [p.strip() for p in case.split(";")]
@@ -135,6 +141,107 @@ def judge_materialise(case, impl, spec):
 def split_none(model_line):
     return None, "-", None
 
+# ---------------------------------------------------------------------------------------------------------------------------
+# creeping_propagation: the wall-clock side of the repair limits_deep (in Coq: the oracle `giveup`, see ASSUMPTIONS).  Model-level
+# float models (sub-command solvef, grammar of vlib/fmodel.py) with real time limits of 300-400 ms.
+def _F(lo, hi): return "F %s %s" % (fm.f2h(lo), fm.f2h(hi))
+def gen_creeping(tier, rng):
+    h = fm.f2h
+    cases = []
+    def to(): return "to %d" % rng.choice([300, 350, 400])
+    reps = 1 if tier == "quick" else 6
+    # the two witnesses of the finding, verbatim: (a) propagation creeping one step of 1e-10 per round, (b) a bisection over
+    # more than 2^52 steps (fixes_applied/float_arith/APPLY.md, by-product 3)
+    cases.append("10 ; F 0000000000000000 408f400000000000|F 0000000000000000 408f400000000000 ; new lt(x0,x1) ; new lt(x1,x0) ; solve ; to 400")
+    cases.append("2 ; F 412dc90000000000 412dc90a00000000|F 40db0d0000000001 40db0d4000000001|F c01a000000000000 4021000000000000 ; "
+                 "new le(mul(mul(x0,x0),x0),f:43a9ce0abb717384) ; lin le c004000000000000,bffc000000000000 x2,x1 c0e70d35fa6c9696 ; "
+                 "new eq(x2,f:c019705a71e5375a) ; solve ; to 400")
+    for _ in range(reps):
+        hi = rng.choice([1000.0, 5000.0, 1e6])
+        for prec in (8, 9, 10):
+            # x < y and y < x: every round moves one bound by one step
+            e = rng.choice(["solve", "min x0", "max x1", "min x1"])
+            cases.append("%d ; %s|%s ; new lt(x0,x1) ; new lt(x1,x0) ; %s ; %s" % (prec, _F(0, hi), _F(0, hi), e, to()))
+        # the same through the root LP step (the LP finds the model feasible on the boundary; the vertex phase and the root propagate)
+        cases.append("10 ; %s|%s ; new lt(x0,x1) ; new lt(x1,x0) ; %s ; %s ; lp" % (_F(0, hi), _F(0, hi), rng.choice(["solve", "min x0"]), to()))
+        # a cycle of three
+        cases.append("%d ; %s|%s|%s ; new lt(x0,x1) ; new lt(x1,x2) ; new lt(x2,x0) ; %s ; %s"
+                     % (rng.choice([9, 10]), _F(0, hi), _F(0, hi), _F(0, hi), rng.choice(["solve", "max x2"]), to()))
+        # opposite difference rows with a small negative slack over a huge box (FloatLinLe): x - y <= -d, y - x <= -d
+        d = rng.choice([0.5, 0.25, 1e-3])
+        cases.append("6 ; %s|%s ; lin le %s,%s x0,x1 %s ; lin le %s,%s x0,x1 %s ; %s ; %s"
+                     % (_F(0, 1e9), _F(0, 1e9), h(1), h(-1), h(-d), h(-1), h(1), h(-d), rng.choice(["solve", "min x0"]), to()))
+        # geometric convergence to (0,0): x <= (1 - 1e-9) y, y <= x
+        c = 1 - 1e-9
+        cases.append("10 ; %s|%s ; lin le %s,%s x0,x1 %s ; lin le %s,%s x0,x1 %s ; %s ; %s"
+                     % (_F(0, hi), _F(0, hi), h(1), h(-c), h(0), h(-1), h(1), h(0), rng.choice(["solve", "min x0", "max x1"]), to()))
+        # slow convergence to a NON-EMPTY region: x <= (1 - 1e-9) y + 1e-7, y <= x + 1e-7 over [0,1000]: the upper bounds creep down
+        # towards ~200 by a factor (1 - 1e-9) per round (1.6e9 rounds); satisfiable with a margin (witness x = y = 0, slack
+        # 1e-7 = 1000 steps on both rows), so the root propagation given up at the deadline must NOT become NoSolution
+        for e in (["solve", "max x0"] if tier == "quick" else ["solve", "max x0", "min x1", "max x1"]):
+            cases.append("10 ; %s|%s ; lin le %s,%s x0,x1 %s ; lin le %s,%s x0,x1 %s ; %s ; %s"
+                         % (_F(0, 1000), _F(0, 1000), h(1), h(-c), h(1e-7), h(-1), h(1), h(1e-7), e, to()))
+        # the creeping system only BELOW a choice: b = 0 switches the two rows on (the engine descends into b <= 0 first, the
+        # propagation of that child creeps); b = 1 switches them off, so the model is satisfiable (witness b = 1, x = y = 0):
+        # Timeout or a correct Ok, never NoSolution
+        for e in (["solve", "min x1"] if tier == "quick" else ["solve", "min x1", "max x2", "max x0"]):
+            cases.append("10 ; I 0 1|%s|%s ; lin le %s,%s,%s x0,x1,x2 %s ; lin le %s,%s,%s x0,x1,x2 %s ; %s ; %s"
+                         % (_F(0, 1000), _F(0, 1000), h(-2000), h(1), h(-1), h(-1e-9), h(-2000), h(-1), h(1), h(-1e-9), e, to()))
+        # a bisection that cannot make progress: magnitude 1e17 at step 0.01 (neighbouring grid points are not representable);
+        # no constraint at all, or a trivially satisfiable one: Timeout or Ok, never NoSolution
+        lo = rng.choice([1e17, 3e17, 1e18])
+        cases.append("2 ; %s ; %s ; %s" % (_F(lo, lo * 1.1), rng.choice(["solve", "max x0", "min x0"]), to()))
+        cases.append("2 ; %s|%s ; new le(x0,x1) ; %s ; %s" % (_F(lo, lo * 1.1), _F(lo, lo * 1.2), rng.choice(["solve", "min x1"]), to()))
+    return cases
+
+def robust_witness(case):
+    """a corner / centre point of the declared box that satisfies every row with a margin well above the step, or None.
+    Only linear rows are understood; a model with any other row has no witness here (NoSolution is then not judged)."""
+    import itertools
+    from fractions import Fraction
+    if any((not r.linear) or r.rel not in ("le", "lt", "ge", "gt") for r in case.rows) or len(case.decls) > 4:
+        return None
+    cands = []
+    for (k, lo, hi) in case.decls:
+        c = [lo, hi]
+        if k == "F": c.append((lo + hi) / 2)
+        if lo <= 0 <= hi: c.append(Fraction(0))
+        cands.append(c)
+    for x in itertools.product(*cands):
+        ok = True
+        for r in case.rows:
+            d = sum((c * x[v] for v, c in r.coeffs.items()), Fraction(0)) - r.const
+            # 100 steps per unit of coefficient (a strict row is lowered by ONE step) + the f64 rounding of the accumulation;
+            # fm's acceptance tolerance tol(r) is deliberately not added: it bounds what the solver may ACCEPT, while a point is
+            # only ever REMOVED by sound bound reasoning (outward rounding, strict rows shifted by one step)
+            margin = (100 * case.step * (1 + sum(abs(c) for c in r.coeffs.values()))
+                      + fm.EPS_REL * (abs(r.const) + sum(abs(c) * case.bmag(v) for v, c in r.coeffs.items())))
+            if r.rel in ("ge", "gt"): d = -d
+            if d > -margin: ok = False; break
+        if ok: return x
+    return None
+
+def judge_creeping(line, impl, spec):
+    if impl.startswith(("PANIC", "CRASH", "HANG")) or impl == "MISSING":
+        return "no answer within the time limit + 8 s (or a panic): " + impl[:120]
+    case = fm.Case(line)
+    kind, what, kinds, _ = fm.parse_impl(impl)
+    if kind == "err" and what == "Timeout":
+        return None
+    if kind == "ok":
+        bad = fm.point_violations(case, what, kinds)
+        return ("Ok under a time limit with a point that violates the model: " + "; ".join(bad[:3])) if bad else None
+    if kind == "err" and what == "NoSolution":
+        w = robust_witness(case)
+        if w is not None:
+            return "no-solution verdict under a time limit for a satisfiable model (witness %s satisfies every row with a margin)" % (tuple(float(v) for v in w),)
+        return None
+    return "neither a result nor the Timeout error: " + impl[:120]
+
+_creep = Family("creeping_propagation", "solvef", gen_creeping, split=lambda ml: (None, "-", None),
+                nontrivial=lambda c, i: i.startswith("err Timeout"), prop_judge=judge_creeping)
+_creep.takes_witnesses = False    # other grammar (sub-command solvef)
+
 nontrivial = lambda case, impl: impl.startswith("timeout") or impl.startswith("memory") or ("tfire" in case and "checks=0" not in impl)
 _mat = Family("budget_at_materialisation", "api", gen_materialise, split=split_none, nontrivial=lambda c, i: True, prop_judge=judge_materialise)
 _mat.takes_witnesses = False      # other grammar (sub-command api): the limits witnesses of known_findings.txt are not case lines for it
@@ -142,4 +249,5 @@ FAMILIES = [
     Family("scripted_limits", "limits", gen, nontrivial=nontrivial, prop_judge=judge),
     Family("deep_stack_memory", "limits", gen_deep, nontrivial=nontrivial, prop_judge=judge),
     _mat,
+    _creep,
 ]
